@@ -208,7 +208,13 @@ func (propC15) Judge(sc *Scenario) *Verdict {
 	var baseOut *Outcome
 	permuted := 0
 	sites := map[string]bool{}
-	for i, s := range sc.Scheds {
+	// the first schedule is executed twice: a difference there is instability
+	// that has nothing to do with map order (e.g. a pointer value printed)
+	scheds := sc.Scheds
+	if len(scheds) > 0 {
+		scheds = append([]*simrt.Schedule{scheds[0], scheds[0]}, scheds[1:]...)
+	}
+	for i, s := range scheds {
 		o := Execute(sc, s)
 		v.Evals++
 		v.addStats(o.Stats)
@@ -239,9 +245,12 @@ func (propC15) Judge(sc *Scenario) *Verdict {
 				}
 				v.OK = false
 				v.Class = "c15:order-dependent:" + cls
-				v.Msg = fmt.Sprintf("schedules #0 (%s) and #%d (%s) disagree on %s:\n  A: %s\n  B: %s\n  map-range events under B: %v %v",
-					schedName(sc.Scheds[0]), i, schedName(s), field, clip(after(base[j]), 600), clip(after(obs[j]), 600), o.SchedSites, o.Sched)
-				v.Detail = map[string]interface{}{"schedule_a": sc.Scheds[0], "schedule_b": s, "applied_b": o.Sched, "sites_b": o.SchedSites}
+				if i == 1 {
+					v.Class = "c15:unstable-under-same-schedule:" + cls
+				}
+				v.Msg = fmt.Sprintf("executions #0 (schedule %s) and #%d (schedule %s) disagree on %s:\n  A: %s\n  B: %s\n  map-range events under B: %v %v",
+					schedName(scheds[0]), i, schedName(s), field, clip(after(base[j]), 600), clip(after(obs[j]), 600), o.SchedSites, o.Sched)
+				v.Detail = map[string]interface{}{"schedule_a": scheds[0], "schedule_b": s, "applied_b": o.Sched, "sites_b": o.SchedSites}
 				break
 			}
 		}
